@@ -548,6 +548,7 @@ pub fn run_prop(prop: &dyn Prop, tier: Tier, seed: u64) -> i32 {
             "per_domain": per_domain,
             "fixed_checks": fixed_report,
             "exhaustive_parts": exhaustive_parts,
+            "coverage_guided": fuzz_stats(id, tier),
             "foreign_discards": foreign,
             "excluded_known": excluded_known,
             "counters": counters,
@@ -700,5 +701,60 @@ pub fn triage(prop: &dyn Prop, seed: u64, n: u32) {
             let _ = std::fs::write(&p, serde_json::to_string_pretty(&body).unwrap());
             println!("        saved {}", p.display());
         }
+    }
+}
+
+/// Search the domain of a known finding for fresh reproducers (fixes elsewhere change timing and
+/// make old ones pass): saves up to `want` generated cases whose owned violation matches the
+/// finding's signature as findings/<id>-r<k>.json. The registry (tools/findings.py) lists them.
+pub fn refind(prop: &dyn Prop, finding: &Finding, seed: u64, n: u32, want: usize) -> usize {
+    use proptest::strategy::ValueTree;
+    let excl = Exclusions::default();
+    let mut found = 0usize;
+    for dom in prop.domains() {
+        if let Some(d) = &finding.domain {
+            if d != dom.name() {
+                continue;
+            }
+        }
+        let cfg = Config { cases: n, failure_persistence: None, ..Config::default() };
+        let rng = TestRng::from_seed(RngAlgorithm::ChaCha, &seed_bytes(seed, prop.id(), dom.name(), 77));
+        let mut runner = TestRunner::new_with_rng(cfg, rng);
+        let strat = dom.strategy(Tier::Quick);
+        let mut best: Vec<(usize, Value, Violation)> = Vec::new();
+        for _ in 0..n {
+            let raw = strat.new_tree(&mut runner).unwrap().current();
+            let case = dom.decode(&raw, &excl);
+            let r = dom.run(&case, &excl);
+            if let Verdict::Violation(v) = r.verdict {
+                let avoid = std::env::var("VERIF_AVOID_TAG").ok();
+                if finding.matches(&v) && !avoid.map(|a| v.has_tag(&a)).unwrap_or(false) {
+                    // prefer small cases and violations with few other tags
+                    let size = serde_json::to_string(&case).map(|s| s.len()).unwrap_or(usize::MAX) + 400 * v.tags.len();
+                    best.push((size, case, v));
+                }
+            }
+        }
+        best.sort_by_key(|b| b.0);
+        for (k, (_, case, v)) in best.into_iter().take(want).enumerate() {
+            let p = verif_root().join("findings").join(format!("{}-r{}.json", finding.id, k));
+            let body = json!({"property": prop.id(), "violation": v, "replay": {"domain": dom.name(), "case": case}});
+            let _ = std::fs::write(&p, serde_json::to_string_pretty(&body).unwrap());
+            println!("saved {} ({:?} {:?})", p.display(), v.rule, v.tags);
+            found += 1;
+        }
+    }
+    found
+}
+
+/// statistics left by the libFuzzer stage of `check` (thorough tier), folded into the evidence
+fn fuzz_stats(id: &str, tier: Tier) -> Vec<Value> {
+    if !matches!(tier, Tier::Thorough) {
+        return vec![];
+    }
+    let p = verif_root().join("target").join(format!("fuzz-stats-{id}.jsonl"));
+    match std::fs::read_to_string(&p) {
+        Ok(s) => s.lines().filter_map(|l| serde_json::from_str(l).ok()).collect(),
+        Err(_) => vec![],
     }
 }
